@@ -93,6 +93,9 @@ type simCluster struct {
 	logAppend bool // LogAppendTime: responses carry a timestamp
 
 	noHold bool                 // conducted replay left its behaviour: requests are no longer held
+	// conducted replay: a produce request WITHOUT any batch (the idempotent producer forces an empty buffer out on an epoch
+	// roll-over) is answered at once, is not numbered and takes no plan; the conductor is told (broker index)
+	onEmptyProduce func(broker int32)
 	reqIDs map[int]map[int][]int // produce request number -> partition -> ids it carries
 
 	initPidFault   string
@@ -556,6 +559,16 @@ func (pt *simPart) seqDecision(b *simBatchIn) (string, int64) {
 func (c *simCluster) handleProduce(b *simBroker, r *ProduceRequest, wire int) (encoderWithHeader, string) {
 	batches := c.decodeBatches(r)
 	c.mu.Lock()
+	if c.onEmptyProduce != nil && len(batches) == 0 {
+		c.rec.Ev("recv", kv{"req": 0, "broker": int(b.idx), "batches": []kv{}, "wire": wire, "nmsgs": 0, "acks": int(r.RequiredAcks), "ver": int(r.Version)})
+		c.onEmptyProduce(b.idx)
+		c.rec.Ev("reply", kv{"req": 0, "kinds": [][]interface{}{}})
+		c.mu.Unlock()
+		if r.RequiredAcks == NoResponse {
+			return nil, ""
+		}
+		return &ProduceResponse{Version: r.Version}, ""
+	}
 	c.produceN++
 	n := c.produceN
 	plan := c.plans[n]
